@@ -195,3 +195,42 @@ package security
 //@ func (*SSLAuthenticator).exchangeSciToken
 //@   props C13
 //@   loop 1 invariant token_read: 0 <= totalRead && totalRead <= tokenSize && len(tokenBytes) == tokenSize
+
+// ---- policy table (C10, C03): negotiateSecurity -------------------------------------------------
+//@ pred inAuthList(x, l) = exists i :: 0 <= i && i < len(l) && l[i] == x
+//@ pred commonAuth(S, C) = exists i :: 0 <= i && i < len(S) && S[i] != "NONE" && inAuthList(S[i], C)
+//@ pred commonCrypto(S, C) = exists i :: 0 <= i && i < len(S) && S[i] != "" && inAuthList(S[i], C)
+//@ pred conflict(s, c) = (s == "REQUIRED" && c == "NEVER") || (s == "NEVER" && c == "REQUIRED")
+//@ pred wanted(s, c, have) = s == "REQUIRED" || c == "REQUIRED" || (s != "NEVER" && c != "NEVER" && (s == "PREFERRED" || c == "PREFERRED") && have)
+
+//@ func (*Authenticator).negotiateSecurity (a, negotiation) (err)
+//@   props C10 C03
+//@   requires cfgs: negotiation.ServerConfig != nil && negotiation.ClientConfig != nil && negotiation.ServerConfig != negotiation.ClientConfig
+//@   requires fresh_negotiation: negotiation.NegotiatedCrypto == ""
+//@   let sc = negotiation.ServerConfig
+//@   let cc = negotiation.ClientConfig
+//@   let haveAuth = negotiation.NegotiatedAuth != "NONE"
+//@   let haveCrypto = negotiation.NegotiatedCrypto != ""
+//@   assigns negotiation.NegotiatedAuth, negotiation.NegotiatedCrypto, negotiation.Enact, negotiation.Authentication, negotiation.Encryption
+//@   loop 1 invariant sound: negotiation.NegotiatedAuth == "NONE" || (inAuthList(negotiation.NegotiatedAuth, sc.AuthMethods) && inAuthList(negotiation.NegotiatedAuth, cc.AuthMethods))
+//@   loop 2 invariant sound: negotiation.NegotiatedAuth == "NONE" || (inAuthList(negotiation.NegotiatedAuth, sc.AuthMethods) && inAuthList(negotiation.NegotiatedAuth, cc.AuthMethods))
+//@   loop 1 invariant still_none: negotiation.NegotiatedAuth == "NONE"
+//@   loop 1 invariant none_so_far: negotiation.NegotiatedAuth == "NONE" ==> forall i :: 0 <= i && i <= rangeindex ==> forall j :: 0 <= j && j < len(cc.AuthMethods) ==> (sc.AuthMethods[i] == cc.AuthMethods[j] ==> sc.AuthMethods[i] == "NONE")
+//@   loop 2 invariant none_for_this: forall j :: 0 <= j && j <= rangeindex ==> (sc.AuthMethods[rangeindex1 + 1] == cc.AuthMethods[j] ==> sc.AuthMethods[rangeindex1 + 1] == "NONE")
+//@   loop 3 invariant still_none: negotiation.NegotiatedCrypto == ""
+//@   loop 3 invariant none_so_far: forall i :: 0 <= i && i <= rangeindex ==> forall j :: 0 <= j && j < len(cc.CryptoMethods) ==> (sc.CryptoMethods[i] == cc.CryptoMethods[j] ==> sc.CryptoMethods[i] == "")
+//@   loop 4 invariant none_for_this: forall j :: 0 <= j && j <= rangeindex ==> (sc.CryptoMethods[rangeindex3 + 1] == cc.CryptoMethods[j] ==> sc.CryptoMethods[rangeindex3 + 1] == "")
+//@   loop 3 invariant sound: negotiation.NegotiatedCrypto == "" || (inAuthList(negotiation.NegotiatedCrypto, sc.CryptoMethods) && inAuthList(negotiation.NegotiatedCrypto, cc.CryptoMethods))
+//@   loop 4 invariant sound: negotiation.NegotiatedCrypto == "" || (inAuthList(negotiation.NegotiatedCrypto, sc.CryptoMethods) && inAuthList(negotiation.NegotiatedCrypto, cc.CryptoMethods))
+//@   loop 3 invariant auth_kept: negotiation.NegotiatedAuth == "NONE" || (inAuthList(negotiation.NegotiatedAuth, sc.AuthMethods) && inAuthList(negotiation.NegotiatedAuth, cc.AuthMethods))
+//@   loop 4 invariant auth_kept: negotiation.NegotiatedAuth == "NONE" || (inAuthList(negotiation.NegotiatedAuth, sc.AuthMethods) && inAuthList(negotiation.NegotiatedAuth, cc.AuthMethods))
+//@   ensures cipher_offered_by_server: [C10 C03] haveCrypto ==> inAuthList(negotiation.NegotiatedCrypto, sc.CryptoMethods)
+//@   ensures cipher_offered_by_client: [C10 C03] haveCrypto ==> inAuthList(negotiation.NegotiatedCrypto, cc.CryptoMethods)
+//@   ensures none_only_if_no_common_method: [C10] !haveAuth ==> forall i :: 0 <= i && i < len(sc.AuthMethods) ==> forall j :: 0 <= j && j < len(cc.AuthMethods) ==> (sc.AuthMethods[i] == cc.AuthMethods[j] ==> sc.AuthMethods[i] == "NONE")
+//@   ensures no_cipher_only_if_none_common: [C10] !haveCrypto ==> forall i :: 0 <= i && i < len(sc.CryptoMethods) ==> forall j :: 0 <= j && j < len(cc.CryptoMethods) ==> (sc.CryptoMethods[i] == cc.CryptoMethods[j] ==> sc.CryptoMethods[i] == "")
+//@   ensures method_offered_by_both: [C10 C03] haveAuth ==> inAuthList(negotiation.NegotiatedAuth, sc.AuthMethods) && inAuthList(negotiation.NegotiatedAuth, cc.AuthMethods)
+//@   ensures fails_exactly_on_conflict: [C10] (err != nil) == (conflict(sc.Authentication, cc.Authentication) || conflict(sc.Encryption, cc.Encryption) || (wanted(sc.Authentication, cc.Authentication, haveAuth) && !haveAuth) || (wanted(sc.Encryption, cc.Encryption, haveCrypto) && !haveCrypto))
+//@   ensures auth_by_table: [C10 C03] err == nil ==> negotiation.Authentication == wanted(sc.Authentication, cc.Authentication, haveAuth)
+//@   ensures enc_by_table: [C10 C03] err == nil ==> negotiation.Encryption == wanted(sc.Encryption, cc.Encryption, haveCrypto)
+//@   ensures required_honoured: [C03] err == nil && (sc.Authentication == "REQUIRED" || cc.Authentication == "REQUIRED") ==> negotiation.Authentication && haveAuth
+//@   ensures required_enc_honoured: [C03] err == nil && (sc.Encryption == "REQUIRED" || cc.Encryption == "REQUIRED") ==> negotiation.Encryption && haveCrypto
